@@ -3,6 +3,7 @@
 //!   reg mismatch <RP|RS|RR|RQ> <RP|RS|RR|RQ>  register the first role on a fresh topic, then the second on the same
 //!   reg abuse <RP|RQ|RR> <frame>;<frame>…    register in that role, then send those frames; afterwards the topic
 //!                                            must still serve well-behaved library clients
+//!   reg mute                                 a peer that grants no stream credit registers (wrong pattern, invalid name, valid)
 //!   reg abandon <role> <n>                   n registrations whose peer stops reading before it registers and then leaves
 //!   reg stall <n>                            a subscriber on topic A that never reads, > 1.25 MB published to A,
 //!                                            n further registrations on A; then a pub/sub round trip on topic B
@@ -327,6 +328,31 @@ async fn run_case(addr: SocketAddr, certs: &Certs, t: &[&str]) -> anyhow::Result
             drop(subs);
             Ok(format!("{} a={} b={} probe=ok", answers.join(" "), seen[0], seen[1]))
         }
+        "mute" => {
+            // a peer that grants the server no credit on its streams (it never reads) and so can take no answer: whatever it
+            // registers as - a role the topic does not have, an invalid name, a perfectly good subscriber - the answer meant for
+            // it must not be waited for in a place where it holds anybody else up
+            let (ns, tp) = fresh();
+            // the topic exists as request/reply
+            let holder = raw(addr, certs).await?;
+            let mut rep = raw_stream(&holder).await?;
+            rep.send(reg_frame("RR", &ns, &tp)).await?;
+            let a = answer(&mut rep).await;
+            let mute = raw_connect_window(addr, &certs.client("ca.der"), Some((&certs.client("localhost.der"), &certs.client("localhost.key.der"))), Some(0)).await?;
+            let mut kept = vec![];
+            for (kind, n, t2) in [("RS", ns.as_str(), tp.as_str()), ("RP", ns.as_str(), tp.as_str()), ("RS", "ab", "c"), ("RS", "verif", "mutegood")] {
+                let mut s = raw_stream(&mute).await?;
+                let _ = tokio::time::timeout(Duration::from_millis(300), s.send(reg_frame(kind, n, t2))).await;
+                kept.push(s);
+            }
+            tokio::time::sleep(Duration::from_millis(400)).await;
+            let (ns2, tp2) = fresh();
+            let probe = probe_pubsub(addr, certs, &ns2, &tp2).await;
+            let (ns3, tp3) = fresh();
+            let probe2 = probe_reqrep(addr, certs, &ns3, &tp3).await;
+            drop(kept); drop(rep);
+            Ok(format!("{a} probe={probe} other-names={probe2}"))
+        }
         "abandon" => {
             // registrations that die half-way: the peer refuses to read (STOP_SENDING on its receiving side) before it sends
             // its registration, so the acknowledgement cannot be written; it then ends the stream. Nothing of such a
@@ -455,6 +481,7 @@ pub fn run(cfg: &Cfg) {
         for l in [max - 100, max - 28, max - 27, max - 9, max, max + 1] { cases.push(format!("reg big RQ {l}")); }
         for first in ["RP", "RR"] { for second in ["pub", "sub", "req"] { cases.push(format!("reg lib {first} {second}")); } }
         for role in ["RR", "RQ", "RP", "RS"] { cases.push(format!("reg abandon {role} 3")); }
+        cases.push("reg mute".into());
         cases.push("reg stall 130".into());
         cases.push("reg stall 420".into());
         // isolation between names that are close to each other: the same text with the separator elsewhere, swapped
@@ -494,7 +521,7 @@ pub fn run(cfg: &Cfg) {
                 let probe_ok = line.split(' ').filter(|x| x.contains('=') && ["probe", "queued-peer", "blocked-publisher", "other-names", "queued-peer-later"].contains(&x.split('=').next().unwrap())).all(|x| x.ends_with("=ok"));
                 // whom a dead probe speaks for: a topic left unusable (C11); for the stall scenario other topics (C17); a replier
                 // slot that a dead registration keeps occupied (C10)
-                let tag = if t[1] == "stall" { "C11/C17" } else if t[1] == "abandon" && t[2] == "RR" { "C10/C11" } else { "C11" };
+                let tag = if t[1] == "stall" || t[1] == "mute" { "C11/C17" } else if t[1] == "abandon" && t[2] == "RR" { "C10/C11" } else { "C11" };
                 if !probe_ok { dead = line.contains("hang"); m = Err(format!("{tag}: after `{}` well-behaved clients are no longer served: {line}", t[1..].join(" ").chars().take(80).collect::<String>())); }
                 if m.is_ok() {
                     let answers: Vec<&str> = line.split(' ').filter(|x| !x.starts_with("probe=") && !x.starts_with("queued-peer=") && !x.starts_with("blocked-publisher=") && !x.starts_with("other-names=") && !x.starts_with("queued-peer-later=") && !x.starts_with("a=") && !x.starts_with("b=") && !x.starts_with("lib=")).collect();
